@@ -155,6 +155,10 @@ def make_cases(ctx, first):
             elif r < 0.6:
                 w.age(repo, "some")
             if rng.random() < 0.3:
+                # between the blob uploads and the manifest push of an image whose content the repository has held before:
+                # the blobs were uploaded just now, however old the previous copy is
+                w.reupload(repo, unreferenced=rng.random() < 0.7)
+            if rng.random() < 0.3:
                 # a collection between the blob uploads and the manifest push of one image
                 cfg, lay = b'{"architecture":"arm64"}', b"late-layer-%d" % rnd
                 w.blob(repo, cfg); w.blob(repo, lay)
